@@ -38,9 +38,12 @@ def main():
     }
     with open(os.path.join(VERIF, "MANIFEST.json"), "w") as f:
         json.dump(man, f, indent=1)
-    import jsonschema
-    jsonschema.validate(man, json.load(open("/root/.vp/MANIFEST.schema.json")))
-    print("MANIFEST ok:", [c["property_id"] for c in checks])
+    try:
+        import jsonschema
+        jsonschema.validate(man, json.load(open("/root/.vp/MANIFEST.schema.json")))
+        print("MANIFEST ok:", [c["property_id"] for c in checks])
+    except ImportError:       # this interpreter has no jsonschema: validate with `python3-vt` (tooling venv) instead
+        print("MANIFEST written (not schema-validated here: no jsonschema in this interpreter):", [c["property_id"] for c in checks])
 
 if __name__ == "__main__":
     main()
